@@ -287,8 +287,26 @@ def large_fit_case(draw):
     return {"spec": s, "mlcl": None}
 
 
+@st.composite
+def narrow_int_case(draw):
+    """70-300 samples with batch sizes given as np.int8 / np.uint8 / np.int16 scalars (what indexing a small-integer numpy
+    grid yields): positions and batch counts go beyond what those types hold"""
+    cls = draw(st.sampled_from(["LinearModel", "LinearMMD", "MLPModel", "SparseLinearMMD", "RIM", "Douglas", "CategoricalModel"]))
+    s = draw(E.est_spec(classes=[cls], n_max=12, d_max=2, iter_max=2, k_max=3, hidden_max=3, n_min=4, cuts_max=1,
+                        gem_names=["mmd_ova", "mi", "tv_ova"], allow_instance=False, kernel_forms=("named", "precomputed"),
+                        xkinds=("normal",)))
+    s["n"] = draw(st.integers(70, 300))
+    s.pop("ntype", None)
+    if "batch_size" in s:
+        t = draw(st.sampled_from(["int8", "uint8", "int16"]))
+        s["batch_size"] = draw(st.integers(20, 127 if t == "int8" else 255))
+        s["ntype_force"] = {"batch_size": t}
+    return {"spec": s, "mlcl": None}
+
+
 def subs():
-    big = [Sub("fit_large_n", large_fit_case(), oracle_fit, 24, 400, "n in 1030..2300 with several batch sizes")]
+    big = [Sub("fit_narrow_int_batch_size", narrow_int_case(), oracle_fit, 30, 600, "batch sizes as narrow numpy integers on 70-300 samples"),
+           Sub("fit_large_n", large_fit_case(), oracle_fit, 24, 400, "n in 1030..2300 with several batch sizes")]
     return big + _subs()
 
 
